@@ -78,6 +78,21 @@ Theorem port_validate_accepts_iff : forall r count, wf_port_range r = true ->
    count = match r with Single _ => 1 | Range a b => b - a + 1 end).
 Proof. exact port_validate_spec. Qed.
 
+(* the consumers of a parsed PortRange *)
+Theorem no_panic_check_port_availability : forall r nodes, check_port_availability r nodes <> Panic.
+Proof. exact no_panic_check_port_availability_lemma. Qed.
+
+Theorem check_port_availability_refuses_iff : forall r nodes,
+  check_port_availability r nodes = Err 1 <->
+  exists p, In p (all_ports nodes) /\ match r with Single q => p = q | Range a b => a <= p <= b end.
+Proof. exact check_port_availability_spec. Qed.
+
+Theorem port_availability_exclusive_refuted :
+  check_port_availability_exclusive Debug (Range 65530 65535) [(None, None, 65531)] = Panic /\
+  check_port_availability_exclusive Release (Range 65530 65535) [(None, None, 65531)] = Ok tt /\
+  check_port_availability (Range 65530 65535) [(None, None, 65531)] = Err 1.
+Proof. exact port_availability_exclusive_refuted_lemma. Qed.
+
 Theorem no_panic_increment_port : forall p, increment_port p <> Panic.
 Proof. exact no_panic_increment_port_lemma. Qed.
 
@@ -130,6 +145,20 @@ Proof. exact no_panic_header_from_record_lemma. Qed.
 
 Theorem no_panic_record_payload : forall value, record_payload value <> Panic.
 Proof. exact no_panic_record_payload_lemma. Qed.
+
+Theorem no_panic_try_deserialize_record : forall (A : Type) (decode : list N -> option A) value,
+  try_deserialize_record decode value <> Panic.
+Proof. exact @no_panic_try_deserialize_record_lemma. Qed.
+
+Theorem try_deserialize_record_refuses_short : forall (A : Type) (decode : list N -> option A) value,
+  len value <= HEADER_SIZE -> try_deserialize_record decode value = Err 2.
+Proof. exact @try_deserialize_record_short. Qed.
+
+Theorem payload_slice_first_refuted :
+  (forall (decode : list N -> option unit), try_deserialize_record_slice_first decode [] = Panic) /\
+  (forall (decode : list N -> option unit), try_deserialize_record_slice_first decode [145] = Panic) /\
+  (forall (decode : list N -> option unit), try_deserialize_record decode [145] = Err 2).
+Proof. exact payload_slice_first_refuted_lemma. Qed.
 
 (* ---- what failed before the repairs (F3, F4, F5, F22): the transcriptions of the old code panic *)
 Theorem reg_from_hex_unfixed_refuted : exists s, forall pk_ok, reg_from_hex_unfixed pk_ok s = Panic.
